@@ -130,6 +130,11 @@ def tmp_worktree(repo: str | Path = ".", ref: str = "HEAD") -> Iterator[Path]:
         try:
             yield Path(location)
         finally:
-            subprocess.run(["git", "-C", repo, "worktree", "remove", location], stdout=subprocess.DEVNULL, check=False)
+            # `--force`: the checkout is ours and temporary; untracked files written into it while loading
+            # (e.g. `__pycache__` when modules are imported for inspection) must not block its removal,
+            # otherwise the entry survives `prune`, `branch -D` is refused and both leak into the user's repository.
+            subprocess.run(
+                ["git", "-C", repo, "worktree", "remove", "--force", location], stdout=subprocess.DEVNULL, check=False
+            )
             subprocess.run(["git", "-C", repo, "worktree", "prune"], stdout=subprocess.DEVNULL, check=False)
             subprocess.run(["git", "-C", repo, "branch", "-D", tmp_branch], stdout=subprocess.DEVNULL, check=False)
